@@ -18,7 +18,8 @@ naming that server's port; the client delivers exactly one response, the final 2
 `redirects` list has one entry per hop, in order, with that hop's status and Location.
 TLS part (repository test certificates): an https -> https and an http -> https redirect are
 followed, an https -> http redirect is refused: the plain server never sees a request and no
-final response from it is delivered.
+final response from it is delivered; the same for two hop chains http -> https -> http and
+https -> https -> http, whose last hop must be refused.
 
 All sockets are closed in `finally`; a run that does not finish within the (generous) bound
 of service rounds is recorded as inconclusive, never as a violation.
@@ -39,7 +40,7 @@ RULE = ("Hypothesis-generated redirect chains of length 0-4 over 2-3 real loopba
         "from {301,302,303,307}, a Location style (absolute 127.0.0.1 / absolute localhost / absolute-path relative / "
         "path-relative incl. '../'), a target server, a unicode path and query arguments with reserved characters; "
         "a real redirectable Patron issues the first GET; plus a small TLS part (https->https and http->https "
-        "followed, https->http refused) with the repository test certificates. non-trivial = the chain contains a relative Location or a "
+        "followed, https->http refused, also as the last hop of http->https->http and https->https->http chains) with the repository test certificates. non-trivial = the chain contains a relative Location or a "
         "port change; distinct = distinct generated chain")
 ASSUMPTIONS = [
     "urllib.parse.urljoin is the reference for resolving a relative Location against the request URL (RFC 3986)",
@@ -267,7 +268,8 @@ TLS_TARGETS = [("/h1-t", [["k", "v w"]]), ("/h1-x y/z", []), ("/h1-é", [["a", "
 
 
 def run_tls(case):
-    """case = {"tls": "downgrade" | "secure" | "upgrade", "code": 302, "target": index}.  (fails, inconclusive)
+    """case = {"tls": "downgrade" | "secure" | "upgrade" | "updown" | "securedown", "code": 302, "target": index}.
+    -> (fails, inconclusive)
 
     downgrade: https origin -> Location http://...   must be refused (plain server sees nothing)
     secure:    https origin -> Location https://...  followed over a new TLS connection
@@ -288,6 +290,8 @@ def run_tls(case):
     tail = quote(tpath) + (("?" + urlencode([(k, v) for k, v in tq])) if tq else "")
     old_env = os.environ.get("SSL_CERT_FILE")
     try:
+        if kind in ("updown", "securedown"):
+            return _run_tls_chain(case, kind, certdir, store, log, table, valets, tpath, tq, tail)
         if kind == "upgrade":
             os.environ["SSL_CERT_FILE"] = certdir + "/server.pem"
             v0, p0 = httppipe.loopback_valet(make_app(0, table, log), store=store)
@@ -350,6 +354,56 @@ def run_tls(case):
         httppipe.close_all([patron] if patron else [], valets)
 
 
+def _run_tls_chain(case, kind, certdir, store, log, table, valets, tpath, tq, tail):
+    """Two hop chains whose LAST hop leaves https for http and must be refused:
+    updown:     http origin -> https middle -> Location http://...
+    securedown: https origin -> https middle -> Location http://...
+    (called inside run_tls' try/finally, which closes `valets` and restores SSL_CERT_FILE; the patron is
+    closed here)"""
+    from ioflo.aio.http import clienting
+    from ioflo.aid.odicting import odict
+    patron = None
+    try:
+        os.environ["SSL_CERT_FILE"] = certdir + "/server.pem"
+        if kind == "updown":
+            v0, p0 = httppipe.loopback_valet(make_app(0, table, log), store=store)
+        else:
+            v0, p0 = httppipe.loopback_valet_tls(make_app(0, table, log), certdir, store=store)
+        valets.append(v0)
+        v1, p1 = httppipe.loopback_valet_tls(make_app(1, table, log), certdir, store=store,
+                                             client_cert=(kind != "updown"))
+        valets.append(v1)
+        v2, p2 = httppipe.loopback_valet(make_app(2, table, log), store=store)
+        valets.append(v2)
+        loc1 = "https://localhost:%d/h1-m?step=1" % p1
+        loc2 = "http://localhost:%d%s" % (p2, tail)
+        table[(0, "/h0-s")] = {"kind": "redirect", "code": case["code"], "location": loc1, "bodylen": 0}
+        table[(1, "/h1-m")] = {"kind": "redirect", "code": case.get("code2", case["code"]), "location": loc2, "bodylen": 0}
+        table[(2, tpath)] = {"kind": "final", "pos": 2}
+        if kind == "updown":
+            patron = clienting.Patron(hostname="127.0.0.1", port=p0, store=store, bufsize=65536)
+        else:
+            patron = clienting.Patron(hostname="localhost", port=p0, scheme="https", store=store, bufsize=65536,
+                                      certedhost="localhost", keypath=certdir + "/client_key.pem",
+                                      certpath=certdir + "/client_cert.pem", cafilepath=certdir + "/server.pem")
+        patron.open()
+        patron.request(method="GET", path="/h0-s", qargs=odict(), headers=odict([("Accept", "*/*")]))
+        state, rounds, ex = follow(patron, valets, max_rounds=6000)
+        if not [e for e in log if e[0] == 1]:
+            return [], True       # the https middle server was never reached (handshake / trust store): inconclusive
+        fails = []
+        seen2 = [e for e in log if e[0] == 2]
+        if seen2:
+            fails.append(("https-downgraded/chain-%s" % kind, "chain %s -> %s -> %s: the last hop leaves https and was followed: the "
+                          "plain http server saw %r" % ("http" if kind == "updown" else "https", loc1, loc2, seen2)))
+        if patron.responses and patron.responses[0].get("status") == 200:
+            fails.append(("https-downgraded/chain-%s" % kind, "a final response from the plain http server was delivered after %s -> %s"
+                          % (loc1, loc2)))
+        return fails, False
+    finally:
+        httppipe.close_all([patron] if patron else [], [])
+
+
 # ------------------------------------------------------------------------------ bookkeeping
 def classify(case):
     positions, hops = build_chain(case)
@@ -385,7 +439,7 @@ def work(shard, seed, tier):
         if tier == "quick":
             combos = [combos[(seed + 5 * k) % len(combos)] for k in range(2)]
         for target, code in combos:
-            for kind in ("downgrade", "secure", "upgrade"):
+            for kind in ("downgrade", "secure", "upgrade", "updown", "securedown"):
                 case = {"tls": kind, "code": code, "target": target}
                 try:
                     fails, inconclusive = run_tls(case)
